@@ -40,7 +40,7 @@ func VerifC07() {
 	before := *count.Ops
 	tid2 := twin.Commit()
 	writes := *count.Ops - before // durable write operations one commit of block 2 performs
-	v.Assert(writes >= 3, "commit-is-several-durable-writes")
+	v.Assert(writes >= 1, "commit-writes-to-the-disk") // (currently about nine separate batch writes)
 
 	// the crashing run: same block over a disk that stops accepting writes after `budget` operations
 	crash := modelkv.NewCrashDB(disk, v.Choice(writes+1)) // dies before write #budget+1; budget == writes: no crash
